@@ -76,6 +76,48 @@ fn check_opened(ctx: &Ctx, rt: &tokio::runtime::Runtime, cont: Cont, label: &str
 	}
 }
 
+/// Tile sets that exercise what only PMTiles archives of other writers contain: every run of equal
+/// consecutive tile ids (start x length) at z=1..3 including runs that cross a level border, and every
+/// placement of two equal tiles plus one other tile at z=2 (shared byte ranges in any position).
+pub fn pm_special_sets(tier: Tier) -> Vec<(String, TileMap)> {
+	let mut v = vec![];
+	let max_len = tier.pick(20u64, 64u64);
+	for start in 1u64..85 {
+		for len in 1..=max_len {
+			if start + len > 85 {
+				break;
+			}
+			let mut t = TileMap::new();
+			for id in start..start + len {
+				t.insert(codec::pm_id_to_zxy(id).unwrap(), b"run payload".to_vec());
+			}
+			// one unrelated tile so that the directory has a second entry (unless the run covers it)
+			t.entry((3, 7, 0)).or_insert_with(|| b"other".to_vec());
+			v.push((format!("run of {len} equal tiles from tile id {start}"), t));
+		}
+	}
+	let z2: Vec<Key> = (5u64..21).map(|id| codec::pm_id_to_zxy(id).unwrap()).collect();
+	for a in 0..16 {
+		for b in a + 1..16 {
+			for c in 0..16 {
+				if c == a || c == b {
+					continue;
+				}
+				let mut t = TileMap::new();
+				t.insert(z2[a], b"twin".to_vec());
+				t.insert(z2[b], b"twin".to_vec());
+				t.insert(z2[c], b"single".to_vec());
+				v.push((format!("equal tiles at z2 ids {}+{} and another at {}", a + 5, b + 5, c + 5), t));
+			}
+		}
+	}
+	v
+}
+
+pub fn pm_special_layouts() -> Vec<PmLayout> {
+	PmLayout::all().into_iter().filter(|l| (l.run_lengths || l.share_offsets) && l.leaf_size == 2 && l.leaf_levels <= 1 && !l.data_reversed).collect()
+}
+
 fn pair_cover<T: Copy>(all: &[T], n: usize) -> Vec<T> {
 	// deterministic spread over the layout list (first, last and evenly spaced)
 	if all.len() <= n {
@@ -87,7 +129,7 @@ fn pair_cover<T: Copy>(all: &[T], n: usize) -> Vec<T> {
 pub fn run(ctx: Arc<Ctx>) {
 	ctx.rule(
 		"independent encoders x layout freedoms: versatiles (coverage tight/full/margin, block order, tile order, shared ranges, padding, metadata absent) 96 layouts; PMTiles (internal compression none/gzip, run lengths, shared offsets, 0/1/2 leaf levels with leaf size 1..3, clustered / reversed data) 112 layouts; \
-		 MBTiles (table / view over map+images, extra metadata, index, insert order) 16 layouts; tar (./ prefix, directory entries, ustar/GNU, member order, metadata position) 32 layouts; directory (extra files). tile sets: BFS depth <= 1 x all layouts, depth 2 x spread of layouts (quick) / all (thorough, in-memory formats), named families. \
+		 MBTiles (table / view over map+images, extra metadata, index, insert order) 16 layouts; tar (./ prefix, directory entries, ustar/GNU, member order, metadata position) 32 layouts; directory (extra files). tile sets: BFS depth <= 1 x all layouts, PMTiles: every run (start x length <= 20 quick / 64 thorough) of equal consecutive tile ids 1..84 and every placement of two equal tiles + one other at z=2 x the layouts with run lengths / shared ranges, depth 2 x spread of layouts (quick) / all (thorough, in-memory formats), named families. \
 		 non-trivial = distinct (format, layout, tile set) using a feature the repository's writers never emit",
 	);
 	let work = ct::WorkDir::new("c16");
@@ -216,6 +258,20 @@ pub fn run(ctx: Arc<Ctx>) {
 			}
 		}
 	});
+	// PMTiles only: every run / every placement of shared byte ranges x the layouts that use them
+	let special = pm_special_sets(tier);
+	let sl = pm_special_layouts();
+	let (specr, slr) = (&special, &sl);
+	par_for(special.len(), |i| {
+		let (name, tiles) = &specr[i];
+		let rt = tokio::runtime::Builder::new_current_thread().build().unwrap();
+		for l in slr.iter() {
+			let bytes = codec::pm_encode(tiles, 2, 1, META, *l);
+			check_opened(ctxr, &rt, Cont::Pmtiles, &format!("pmtiles {l:?} over {name}"), &Written::Bytes(bytes), tiles, true, json!({"cont": "pmtiles", "layout": l, "set": name}));
+			ctxr.nontrivial(fnv_str(&format!("pmS{l:?}{name}")));
+		}
+	});
+	ctx.extra("pmtiles_run_and_shared_range_sets", json!({"sets": special.len(), "layouts": sl.len()}));
 	ctx.sample(json!({"versatiles_layout": VtLayout::all()[37], "pmtiles_layout": PmLayout::all()[55], "tar_layout": TarLayout::all()[9], "mbtiles_layout": MbLayout::all()[5], "tile_set": format!("{:?}", bfs.states[900])}));
 	ctx.extra("layouts", json!({"versatiles": VtLayout::all().len(), "pmtiles": PmLayout::all().len(), "tar": TarLayout::all().len(), "mbtiles": MbLayout::all().len(), "directory": 2}));
 	// cross-validation of the independent codecs against the repository's writers is C01's decoder leg;
